@@ -214,7 +214,7 @@ theorem census_split_le {setName : String} {P : List CPod} (hc : PodsCtx setName
     rw [← cnt_append]
     exact cnt_perm (List.filter_append_perm _ _).symm
   have hnd : (P.map (·.pod)).Nodup := by
-    have := hc.snap.ordNodup
+    have := hc.ordNodup
     exact List.Nodup.of_map _ this
   have h1 : cnt (countedAt cur) ((P.map (·.pod)).filter (fun p => inRange b E p.ord)) ≤
       cnt (countedAt cur) ((repsOf v cur upd b E (P.map (·.pod))).map (·.2)) := by
@@ -284,7 +284,7 @@ theorem reps_keys (v : SetView) (cur upd : String) (b : Int) (E : List Int) (pod
     replica loop, hold a live pod at the current revision, less the pod the walk took down -/
 theorem recon_par_cur_le {setName : String} {P : List CPod} (hc : PodsCtx setName P) (v : SetView) (cur upd : String) (r : Int)
     (hr : v.replicas = some r) (h0 : 0 ≤ r) (hpar : v.parallel = true) (hdel : v.deleting = false)
-    (hb : (maxReplicaAndSlots r v.slots).1 ≤ maxInt32) (hord : ∀ p ∈ P.map (·.pod), p.ord < maxInt32) :
+    :
     (updateStatefulSet v cur upd (P.map (·.pod)) []).1.status.current ≤
       cnt (liveAt cur) (((repsOf v cur upd (maxReplicaAndSlots r v.slots).1 (maxReplicaAndSlots r v.slots).2 (P.map (·.pod))).map
         (repNew v cur upd)).map (·.2)) -
@@ -293,7 +293,7 @@ theorem recon_par_cur_le {setName : String} {P : List CPod} (hc : PodsCtx setNam
   have hsplit := census_split_le hc v cur upd _ _ hfacts.1 hfacts.2
   unfold updateStatefulSet
   cases hp : prepare v cur upd (P.map (·.pod)) with
-  | error e => obtain ⟨st, o⟩ := e; exact absurd hp (prepare_calm v cur upd _ r hr hb hord st o)
+  | error e => obtain ⟨st, o⟩ := e; exact absurd hp (prepare_calm' v cur upd _ r hr st o)
   | ok p =>
     simp only [hdel, Bool.false_eq_true, if_false]
     obtain ⟨_, hreps, hcond, _, hst0⟩ := L1c.prepare_ok hr hp
@@ -347,11 +347,6 @@ theorem recon_mono_cur_le {h : Hashing} {j : SyncIn} (hk : MonoK0 h j)
   have hpar := hk.2.1
   have hsplit := census_split_le hs.ctx j.view hn.curRev.name hn.updRev.name (bOf j) (EOf j) (bOf_nonneg hn) (EOf_nonneg hn)
   rw [hce] at hsplit
-  have hord : ∀ p ∈ j.pods.map (·.pod), p.ord < maxInt32 := by
-    intro p hp
-    rw [List.mem_map] at hp
-    obtain ⟨c, hc, rfl⟩ := hp
-    exact (hn.pods c hc).2.2.2.2.2.1
   have hplain : ∀ ip ∈ repsOf j.view hn.curRev.name hn.updRev.name (bOf j) (EOf j) (j.pods.map (·.pod)), Plain ip.2 := by
     intro ip hip
     obtain ⟨h1, h2, _⟩ := monoRep_done hfl ip hip
@@ -363,7 +358,7 @@ theorem recon_mono_cur_le {h : Hashing} {j : SyncIn} (hk : MonoK0 h j)
   cases hp : prepare j.view hn.curRev.name hn.updRev.name (j.pods.map (·.pod)) with
   | error e =>
     obtain ⟨st, o⟩ := e
-    exact absurd hp (prepare_calm j.view _ _ _ (replicasOf j.view) hn.spec.rep (bOf_le hn) hord st o)
+    exact absurd hp (prepare_calm' j.view _ _ _ (replicasOf j.view) hn.spec.rep st o)
   | ok p =>
     simp only [hn.spec.del, Bool.false_eq_true, if_false]
     obtain ⟨_, hreps, hcond, _, hst0⟩ := L1c.prepare_ok hn.spec.rep hp
